@@ -4,8 +4,18 @@ package verifstack
 
 import (
 	"github.com/glebziz/fs_db"
+	"github.com/glebziz/fs_db/internal/verifenv"
 	nd "github.com/glebziz/fs_db/internal/verifnd"
 )
+
+var h15AtLimit bool
+
+// VerifH15b: the same with a content directory already at the limit, both goroutines writing:
+// the directory repository's Remove/Create/Get run concurrently.
+func VerifH15b() {
+	h15AtLimit = true
+	VerifH15()
+}
 
 // VerifH15: first use of each operation right after Open, from two goroutines at once, then
 // mixed operations; the happens-before monitor of the engine watches every memory cell allocated
@@ -18,9 +28,24 @@ func VerifH15() {
 	nd.Bound("H15.preemption_bound", P)
 	concreteCounter = true
 	cfg := stdConfig("r1", "r2")
+	if h15AtLimit {
+		// an existing content directory already holds as many entries as the limit: the first
+		// writes rotate it out (dir repository Remove/Create) while the other goroutine reads it
+		d := "r1/aaaaaaaa-aaaa-4aaa-8aaa-aaaaaaaaaaa1"
+		verifenv.FS.PutDir(d)
+		verifenv.ExtraEntries = func(dir string) uint64 {
+			if dir == d {
+				return 100
+			}
+			return 0
+		}
+	}
 	w := newWorld(cfg, []string{"a", "b"})
 	op := func(who string) func() {
-		k := nd.Choice(who+"-first-op", 5)
+		k := 0
+		if !h15AtLimit {
+			k = nd.Choice(who+"-first-op", 5)
+		}
 		v := w.freshVal()
 		return func() {
 			switch k {
